@@ -1320,7 +1320,10 @@ template <int> struct E { E(); E(const E&); E& operator=(const E&); ~E(); int x;
 using V40 = xtl::variant<E<0>, E<1>, E<2>, E<3>, E<4>, E<5>, E<6>, E<7>, E<8>, E<9>, E<10>, E<11>, E<12>, E<13>, E<14>, E<15>, E<16>, E<17>, E<18>, E<19>,
                          E<20>, E<21>, E<22>, E<23>, E<24>, E<25>, E<26>, E<27>, E<28>, E<29>, E<30>, E<31>, E<32>, E<33>, E<34>, E<35>, E<36>, E<37>, E<38>, E<39>>;
 struct Vis { template <class T> void operator()(const T&) const {} };
+using S2 = xtl::variant<int, long>;
+struct Vis2 { template <class T, class U> void operator()(const T&, const U&) const {} };
 void use(V40& a, const V40& b) { xtl::visit(Vis{}, a); V40 c(b); c = b; }
+void use2(V40& a, S2& s) { xtl::visit(Vis2{}, a, s); }
 }
 '''
 
@@ -1360,9 +1363,13 @@ def rule_switch(rep, tier):
             B = int(ta[0])
         except (ValueError, IndexError):
             continue
+        own_f = ir.enclosing_class(d, f)
+        level = sum(1 for a in (targs_deep(own_f) if own_f is not None else []) if "indexed_type<" in a)
+        # the driver visits (V40) and (V40, S2): the first variant switched has 40 alternatives, the second 2
+        NALT = 40 if level == 0 else 2
         for sw in sws:
             n_sw += 1
-            lab = "dispatcher::%s<B=%d>" % (f.get("name"), B)
+            lab = "dispatcher::%s<B=%d>%s" % (f.get("name"), B, "" if level == 0 else " [variant %d of a visit]" % (level + 1))
             cases = [n for n in ir.walk_expr(sw) if n.get("kind") == "CaseStmt"]
             defaults = [n for n in ir.walk_expr(sw) if n.get("kind") == "DefaultStmt"]
             labels = []
@@ -1382,6 +1389,7 @@ def rule_switch(rep, tier):
                 # the call made under this label must carry the label's value as its alternative index
                 callee_idx = None
                 flag = None
+                next_b = None
                 for x in ir.walk_expr(ks[-1]):
                     if x.get("kind") == "DeclRefExpr":
                         rd = x.get("referencedDecl") or {}
@@ -1402,6 +1410,13 @@ def rule_switch(rep, tier):
                                 if its:
                                     m = re.search(r"indexed_type<(\d+)", its[-1])
                                     callee_idx = int(m.group(1)) if m else None
+                                # the next variant is switched from its own first block
+                                try:
+                                    nb = int(ir.template_args(target)[0])
+                                except (ValueError, IndexError):
+                                    nb = None
+                                if nb not in (None, 0):
+                                    next_b = nb
                             if callee_idx is not None:
                                 break
                 if callee_idx is None:
@@ -1410,8 +1425,11 @@ def rule_switch(rep, tier):
                 if callee_idx != val:
                     bad = (c, "`case %d` dispatches alternative %d" % (val, callee_idx))
                     break
-                if flag is not None and flag in ("true", "false") and (flag == "true") != (val < 40):
-                    bad = (c, "`case %d` selects the %s dispatcher although the variant has 40 alternatives" % (val, "reachable" if flag == "true" else "unreachable"))
+                if next_b is not None and val < NALT:
+                    bad = (c, "under `case %d` the next variant's switch is entered at block B=%d, expected 0: its alternatives below %d are never dispatched" % (val, next_b, next_b))
+                    break
+                if flag is not None and flag in ("true", "false") and (flag == "true") != (val < NALT):
+                    bad = (c, "`case %d` selects the %s dispatcher although the variant has %d alternatives" % (val, "reachable" if flag == "true" else "unreachable", NALT))
                     break
             if not bad:
                 if sorted(labels) != list(range(B, B + len(labels))) or len(labels) != 32:
@@ -1454,7 +1472,11 @@ struct UDtor { ~UDtor(); int x; };
 struct UMove { UMove(); UMove(UMove&&) noexcept; UMove& operator=(UMove&&) noexcept; UMove(const UMove&) = default; UMove& operator=(const UMove&) = default; int x; };
 struct MoveOnly { MoveOnly(); MoveOnly(MoveOnly&&) noexcept; MoveOnly& operator=(MoveOnly&&) noexcept; MoveOnly(const MoveOnly&) = delete; MoveOnly& operator=(const MoveOnly&) = delete; };
 struct NoAssign { NoAssign(); NoAssign(const NoAssign&) = default; NoAssign& operator=(const NoAssign&) = delete; const int x = 0; };
+struct ThrowSwap { ThrowSwap(); ThrowSwap(ThrowSwap&&) noexcept; ThrowSwap& operator=(ThrowSwap&&) noexcept; friend void swap(ThrowSwap&, ThrowSwap&); };            // its own swap may throw
+struct QuietSwap { QuietSwap(); QuietSwap(QuietSwap&&) noexcept; QuietSwap& operator=(QuietSwap&&) noexcept; friend void swap(QuietSwap&, QuietSwap&) noexcept; };
+struct LoudMove { LoudMove(); LoudMove(LoudMove&&); LoudMove& operator=(LoudMove&&); friend void swap(LoudMove&, LoudMove&) noexcept; };                           // quiet swap, moves may throw
 template <class P> using V = xtl::variant<P, int>;
+template <class X> constexpr bool swap_is_noexcept() { return noexcept(std::declval<X&>().swap(std::declval<X&>())); }
 template <int> struct E { };
 template <class S> struct mk;
 template <int... I> struct mk<std::integer_sequence<int, I...>> { using type = xtl::variant<E<I>...>; };
@@ -1482,6 +1504,10 @@ def rule_traits(rep, tier):
         ]
         for what, cond in rows:
             w.must_hold(cond, "C05.traits", "variant<%s, int>" % P, what, P)
+    # [variant.swap]: noexcept iff every alternative is nothrow move constructible AND nothrow swappable, where "swappable" is the swap the body calls: the one
+    # found by argument-dependent lookup, not std::swap (a specification that promises more than the body keeps turns a propagating exception into std::terminate)
+    for P, want in (("ThrowSwap", "false"), ("QuietSwap", "true"), ("LoudMove", "false"), ("Triv", "true")):
+        w.must_hold("swap_is_noexcept<V<%s>>() == %s" % (P, want), "C05.noexcept", "variant<%s, int>::swap" % P, "noexcept-specification agrees with the swap found by ADL and the moves", P)
     for n in (255, 256):
         w.raw("using V%d = mk<std::make_integer_sequence<int, %d>>::type; constexpr V%d v%d(mpark::in_place_index_t<%d>{});" % (n, n, n, n, n - 1))
         w.must_hold("v%d.index() == %d && !v%d.valueless_by_exception()" % (n, n - 1, n), "C05.traits", "variant of %d alternatives" % n, "last alternative is distinct from valueless", "index %d" % (n - 1))
